@@ -80,6 +80,9 @@ def lean(e, env):
             return f"(Int.fdiv {a} {b})"
         if isinstance(e.op, ast.Mod):
             return f"(Int.fmod {a} {b})"
+    if isinstance(e, ast.Compare) and len(e.ops) == 1 and isinstance(e.ops[0], ast.Eq):
+        # a Python bool used as a number (int(a == b), or arithmetic on it): 1 if equal else 0
+        return f"(if {lean(e.left, env)} = {lean(e.comparators[0], env)} then (1 : Int) else (0 : Int))"
     if isinstance(e, ast.Call):
         fn = e.func.id if isinstance(e.func, ast.Name) else \
             (e.func.attr if isinstance(e.func, ast.Attribute) else None)
@@ -228,6 +231,26 @@ TABLE += [
      assign_value("num"), KS_ENV, "(F - (1 : Int))"),
     ("kshapProbDen", "k F", "attributions/kernel_shap.py", "KernelShap", "_get_probs_nb_selected_feature",
      c07_rewritten("denom", {"multiply": "binop:mul"}), KS_ENV, "(k * (F - k))"),
+]
+
+
+# ---- C19 (feature visualisation): number of frequency columns kept by fft_2d_freq ----------------
+def slice_upper(target):
+    """upper bound of the slice in `target = <expr>[:upper]`"""
+    def finder(fn):
+        val = assign_value(target)(fn)
+        if isinstance(val, ast.Subscript) and isinstance(val.slice, ast.Slice) and val.slice.upper is not None \
+                and val.slice.lower is None:
+            return val.slice.upper
+        raise Untranslatable(f"{target} is not assigned from a [:upper] slice")
+    return finder
+
+
+TABLE += [
+    ("fftCutOff", "w", "features_visualizations/preconditioning.py", None, "fft_2d_freq",
+     assign_value("cut_off"), {"width": "w"}, "(if (Int.fmod w (2 : Int)) = (1 : Int) then (1 : Int) else (0 : Int))"),
+    ("fftColsGen", "w cut", "features_visualizations/preconditioning.py", None, "fft_2d_freq",
+     slice_upper("freq_x"), {"width": "w", "cut_off": "cut"}, "(((Int.fdiv w (2 : Int)) + (1 : Int)) + cut)"),
 ]
 
 
